@@ -40,3 +40,5 @@ mk("C07-regexp-syntax-error-not-catchable", "C07.log", [[TRY(1, [D(1, "regexp_ct
 mk("C07-match-bad-pattern-not-catchable", "C07.log", [[TRY(1, [D(1, "match_bad_pattern")], [P(3)])]], [0])
 mk("C07-throw-inside-eval-code-loses-value", "C07.value", [[TRY(1, [NAT(2, "evalfn", [D(3, "throw_obj")])], [P(5)])]], [0])
 mk("C07-throw-in-callback-inside-eval-code", "C07.value", [[TRY(1, [NAT(2, "eval_forEach", [D(3, "null_prop")])], [P(5)], [P(6)])]], [0])
+mk("C07-typeof-name-inside-callback-host-typeerror", "C07.host",
+   [[NAT(2, "forEach", [{"t": "expr", "k": 3, "src": "(typeof (undefined))"}]), P(4)]], [])
